@@ -186,7 +186,7 @@ func TestC43(t *testing.T) {
 			rt.Fatalf("C43: %s\nvalue: %s\njson: %s\nccf: %x", s, vgen.Show(v), je.bytes, ce.bytes)
 		}
 	})
-	if evid.ReplayFile() == "" {
+	if !replaying() {
 		rec.RequireClasses(t, "compared", "value/Type", "value/Capability", "value/Dictionary", "value/Struct", "value/Enum", "value/InclusiveRange",
 			"dict/keys-mixed-sign", "dict/keys-mixed-encoded-length", "dict/path-keys-mixed-domain")
 		cmp, both := rec.ClassCount("compared"), rec.ClassCount("both-codecs-failed")
